@@ -242,6 +242,34 @@ func (c *Ctx) States(states, transitions int64) {
 	c.traces += transitions
 }
 
+// ViolateConfirmed is Violate for free-running (real socket) parts: the case is re-run `times` times through its
+// registered E2 replayer first and only reported when it fails every time; otherwise it is recorded as
+// unreproducible (inconclusive) in the evidence and does not affect the verdict.
+func (c *Ctx) ViolateConfirmed(kind, sig, msg string, cs any, times int) {
+	f := E2Replayers[kind]
+	if f == nil {
+		c.Violate(kind, sig, msg, cs)
+		return
+	}
+	raw, _ := json.Marshal(cs)
+	for i := 0; i < times; i++ {
+		if m := f(raw); m == "" {
+			l, _ := c.notes["unreproducible"].([]string)
+			c.notes["unreproducible"] = append(l, fmt.Sprintf("%s (failed once, passed on re-run %d)", msg, i+1))
+			c.Cap("a failure did not reproduce on re-run: " + clipStr(msg, 160))
+			return
+		}
+	}
+	c.Violate(kind, sig, msg, cs)
+}
+
+func clipStr(s string, n int) string {
+	if len(s) > n {
+		return s[:n] + "..."
+	}
+	return s
+}
+
 // Violate records an E2 violation with a replayable case.
 func (c *Ctx) Violate(kind string, sig, msg string, cs any) {
 	for _, v := range c.viols {
